@@ -3,7 +3,7 @@
 From Verif Require Import Base.Tactics Base.ZList Base.Val.
 From Verif Require Import Base.Str.
 From Verif Require Import Model.BufReaderModel Model.RangeModel Model.IsoTimeModel Model.TimingModel Model.SegModel.
-From Verif Require Import Base.Bits Model.CrcModel Model.EventsModel Model.Scte35Model Model.MpsModel Model.AuthModel Model.OptionsModel Model.BoxModel Model.FragModel Model.DrmModel Model.ErrModel Model.OptErrModel Model.XmlModel Model.StoreModel Model.ValidatorModel Model.UserModel.
+From Verif Require Import Base.Bits Model.CrcModel Model.EventsModel Model.Scte35Model Model.MpsModel Model.AuthModel Model.OptionsModel Model.BoxModel Model.FragModel Model.DrmModel Model.ErrModel Model.OptErrModel Model.XmlModel Model.StoreModel Model.ValidatorModel Model.UserModel Model.UsersModel.
 From Verif Require Model.FieldModel.
 
 (* ---- C20 ---- request: (file off bs maxb (size?) mode ops) *)
@@ -248,8 +248,26 @@ Definition c15_user (v : val) : val :=
   | UMismatch => VL [VI 1]
   | UDone x => VL [VI 2; VI (u_name x); vbool (u_must x); VI (u_email x); VI (u_pw x); VI (u_groups x)]
   end.
+(* (10 ((pk name must email pw groups) ...) (op ...)) with op = (0 pk name email pw confirm groups must) |
+   (1 admin caller target name must email (pw)? confirm groups) -> the user table after every op *)
+Definition c15_users (v : val) : val :=
+  let row e := {| a_pk := vint (vnth 0 e);
+                  a_rec := {| u_name := vint (vnth 1 e); u_must := 0 <? vint (vnth 2 e); u_email := vint (vnth 3 e);
+                              u_pw := vint (vnth 4 e); u_groups := vint (vnth 5 e) |} |} in
+  let op e := if vint (vnth 0 e) =? 0 then
+                UAdd (vint (vnth 1 e)) (vint (vnth 2 e)) (vint (vnth 3 e)) (vint (vnth 4 e)) (vint (vnth 5 e)) (vint (vnth 6 e))
+                     (0 <? vint (vnth 7 e))
+              else UEdit {| q_admin := 0 <? vint (vnth 1 e); q_caller := vint (vnth 2 e); q_target := vint (vnth 3 e);
+                            q_name := vint (vnth 4 e); q_must := 0 <? vint (vnth 5 e); q_email := vint (vnth 6 e);
+                            q_pw := as_opt_int (vnth 7 e); q_confirm := vint (vnth 8 e); q_groups := vint (vnth 9 e) |} in
+  let out t := VL (map (fun a => VL [VI (a_pk a); VI (u_name (a_rec a)); vbool (u_must (a_rec a)); VI (u_email (a_rec a));
+                                     VI (u_pw (a_rec a)); VI (u_groups (a_rec a))]) t) in
+  let fix trace (t : utable) (ops : list val) : list val :=
+    match ops with [] => [] | o :: r => let t' := ustep t (op o) in out t' :: trace t' r end in
+  VL (trace (map row (vlist (vnth 1 v))) (vlist (vnth 2 v))).
 Definition c15_run (v : val) : val :=
   if vint (vnth 0 v) =? 9 then c15_user v else
+  if vint (vnth 0 v) =? 10 then c15_users v else
   let tbl := map (fun e => (vints (vnth 0 e), vints (vnth 1 e))) (vlist (vnth 1 v)) in
   let calls := map (fun e => (match vnth 0 e with VL [VL c] => Some (map vint c) | _ => None end,
                               vints (vnth 1 e), vints (vnth 2 e))) (vlist (vnth 2 v)) in
